@@ -62,7 +62,10 @@ def _job(spec):
         if result.violated:
             return out
         for bkw in spec["bindings"]:
-            if module == "Lin":
+            if module == "Life":
+                from harness import gen
+                binding = gen.GenBinding(**bkw)
+            elif module == "Lin":
                 from harness import lin
                 binding = lin.LinBinding(lam=c["Lambda"], scale=c.get("Scaled", False), **bkw)
             else:
@@ -76,7 +79,7 @@ def _job(spec):
             for finding in replay.findings:
                 finding["job"] = spec["name"]
                 finding["consts"] = {k: _plain(v) for k, v in c.items()}
-                finding["engine"] = "lin" if module == "Lin" else "cf"
+                finding["engine"] = {"Lin": "lin", "Life": "life"}.get(module, "cf")
                 out["findings"].append(dict(finding))
     except tlc.TLCError as error:
         out["error"] = "TLC: %s" % error
@@ -95,13 +98,39 @@ def _plain(v):
     return v
 
 
-def run_jobs(report, jobs, keep, procs=None):
+PENDING = []
+
+
+def defer(jobs, keep):
+    """Queues jobs so that several groups (with their own finding filters) share one process pool."""
+    PENDING.append((jobs, keep))
+
+
+def flush(report):
+    groups = list(PENDING)
+    del PENDING[:]
+    jobs, keeps = [], []
+    for group, keep in groups:
+        for job in group:
+            jobs.append(job)
+            keeps.append(keep)
+    if jobs:
+        run_jobs(report, jobs, None, keeps=keeps)
+
+
+def run_jobs(report, jobs, keep, procs=None, keeps=None):
     """Runs the jobs in parallel; merges into the report the findings selected by keep(finding)."""
     procs = procs or min(len(jobs), max(1, (os.cpu_count() or 2)))
+    order = sorted(range(len(jobs)), key=lambda i: 0 if jobs[i].get("mode") == "bfs" else 1)   # long jobs first
+    jobs = [jobs[i] for i in order]
+    if keeps is not None:
+        keeps = [keeps[i] for i in order]
     ctx = multiprocessing.get_context("fork")
     with ctx.Pool(procs, maxtasksperchild=1) as pool:
         results = pool.map(_job, jobs, chunksize=1)
-    for spec, out in zip(jobs, results):
+    for index, (spec, out) in enumerate(zip(jobs, results)):
+        if keeps is not None:
+            keep = keeps[index]
         if out.get("error"):
             raise Machinery("job %s failed: %s" % (spec["name"], out["error"]))
         t = out["tlc"]
@@ -189,3 +218,27 @@ def lin_negative(report, dev, expect, over=None):
                              "tlc_reported": result.violated, "ok": ok})
     if not ok:
         raise Machinery("deviation %s (Lin) produced no counterexample" % dev)
+
+
+LIFE_INVARIANTS = ["Inv_C06_Contiguous", "Inv_C08_Arms"]
+LIFE_PROPERTIES = ["Prop_C07_FitIsFresh", "Prop_C10_ReadOnly", "Prop_C17_RejectUnchanged"]
+
+
+def life_consts(**over):
+    c = dict(Labels={"a", "b", "c", "d"}, InitArms=["a", "b", "c"], NRows=10, Offsets={0, 3}, MaxChunk=3, MaxHist=6, MinFit=1,
+             MaxDepth=4, Ops={"fit", "partial_fit", "add_arm", "remove_arm", "predict", "predict_expectations"},
+             RejectKinds=set(), QueryRows={1, 3}, Quantiles={(1, 2)}, Dev=set())
+    c.update(over)
+    return c
+
+
+def life_negative(report, dev, expect):
+    result = tlc.run("Life", life_consts(Dev={dev}), invariants=LIFE_INVARIANTS, properties=LIFE_PROPERTIES, timeout=300,
+                     workers=4)
+    report.states += result.states
+    report.transitions += result.generated
+    ok = result.violated is not None
+    report.negatives.append({"deviation": dev, "module": "Life", "expected_counterexample_to": expect,
+                             "tlc_reported": result.violated, "ok": ok})
+    if not ok:
+        raise Machinery("deviation %s (Life) produced no counterexample" % dev)
